@@ -212,6 +212,8 @@ class Check(object):
             if ret != 0:
                 raise CoqError(out)
             self.translator_out = out
+            if not targets:
+                return (0, out)
             (ret, out) = self._run(['make', '-f', 'Makefile.conf.mk', '-j16'] + list(targets), timeout)
         finally:
             fcntl.flock(lock, fcntl.LOCK_UN)
@@ -223,6 +225,12 @@ class Check(object):
         ``Theorem`` in it is an obligation; collect Print Assumptions. '''
         self.gate_no_axioms()
         props_v = os.path.join('Props', self.prop_id + '.v')
+        if not os.path.exists(os.path.join(COQ, props_v)):
+            self.obligation('theorem:<%s missing>' % props_v, False, 'no Props file')
+            self.coq_failure = 'no Props file'
+            # still regenerate Gen/ and the project so model evaluation works
+            self.coq_make([])
+            return False
         with open(os.path.join(COQ, props_v), 'r') as infile:
             text = infile.read()
         theorems = re.findall(r'^\s*(?:Theorem|Corollary)\s+([A-Za-z0-9_\']+)', text, flags=re.M)
